@@ -1303,6 +1303,26 @@ pub mod verif {
         }
     }
 
+    /// The reader -I uses (whole lines), over a stream cut into the given chunks.
+    pub fn read_lines(chunks: Vec<Vec<u8>>) -> Result<Vec<(Vec<u8>, bool)>, String> {
+        use std::os::unix::ffi::OsStrExt;
+        let rd = ChunkReader {
+            chunks: chunks.into(),
+        };
+        let mut reader = super::WhitespaceDelimitedArgumentReader::whole_lines(rd);
+        let mut out = vec![];
+        loop {
+            match reader.next() {
+                Ok(Some(arg)) => out.push((
+                    arg.arg.as_bytes().to_vec(),
+                    arg.kind == ArgumentKind::HardTerminated,
+                )),
+                Ok(None) => return Ok(out),
+                Err(e) => return Err(e.to_string()),
+            }
+        }
+    }
+
     /// What a scripted child does: the raw wait status, or a spawn error.
     pub type Executor = Box<dyn FnMut(&[OsString]) -> io::Result<ExitStatus>>;
 
